@@ -6,8 +6,8 @@
    (the Spec).  abs maps a lazy state to the rows it denotes, Inv is the store invariant, Canon says that every
    record still in the buffer is canonically spelled.  `erase` blanks written bytes: values are compared on every
    file, written bytes on canonically spelled files (C04 owns pass-through of other spellings). *)
-From Coq Require Import ZArith List Bool.
-From BNP Require Import Base.Prims Model.C05 Proofs.C05 Proofs.C05_b Gen.C05 Bridge.C05.
+From Coq Require Import ZArith List Bool Permutation.
+From BNP Require Import Base.Prims Model.C05 Proofs.C05 Proofs.C05_b Proofs.C05_c Proofs.C05_d Gen.C05 Bridge.C05.
 Open Scope nat_scope.
 Import ListNotations.
 
@@ -142,10 +142,10 @@ Theorem C05_eager_is_spec :
 Proof. exact eager_is_spec. Qed.
 Print Assumptions C05_eager_is_spec.
 
-(* THE PROPERTY on the two models of the code at HEAD: a lazily read table and the eagerly parsed table of the same
-   well-formed file give equal observations under every program (equal values; equal written bytes when the file is
-   canonically spelled), under exactly the guards that exclude the listed findings *)
-Theorem C05_lazy_is_eager_partial :
+(* HISTORY (the models of the code BEFORE notes/C05.fix-4/5/6.diff: m_run / e_run with `f_nowrite`, the assert on mixed
+   concatenate operands and the refusing VCF writer): the property under m_guard_fixed and eager_guard.  The statement for
+   the code as it is now is C05_lazy_is_eager_partial in the round-6 section below. *)
+Theorem C05_lazy_is_eager_pre6_partial :
   forall F hdr recs prog ctx,
     Forall (fun r => length (r_fields r) = nfields F) recs ->
     m_guard_fixed_run l_concat F hdr (start recs) prog = true ->
@@ -155,7 +155,7 @@ Theorem C05_lazy_is_eager_partial :
     map erase lazy_obs = map erase eager_obs
     /\ (Forall (fun r => rec_canon F r = true) recs -> lazy_obs = eager_obs).
 Proof. exact lazy_is_eager_partial. Qed.
-Print Assumptions C05_lazy_is_eager_partial.
+Print Assumptions C05_lazy_is_eager_pre6_partial.
 
 (* witnesses for the guards (one per listed finding that is not already witnessed above) *)
 Theorem C05_eager_header_lost_refuted :        (* C05-header-lost-on-derived-eager-table *)
@@ -213,7 +213,7 @@ Theorem C05_source_tie :
   (forall a b c d e f : bool,
       gen_getattr_source a b c = m_getattr_source a b c
       /\ gen_concat_column_source a b = m_concat_column_source a b
-      /\ gen_concat_stays_lazy a = m_concat_stays_lazy a
+      /\ gen_concat_stays_lazy a b = m_concat_stays_lazy a b
       /\ gen_concat_set_key a = m_concat_set_key a
       /\ gen_concat_cache_key a b = m_concat_cache_key a b
       /\ gen_get_buffer_path a b c d e f = m_get_buffer_path a b c d e f
@@ -227,6 +227,7 @@ Theorem C05_source_tie :
       /\ gen_replace_keeps_cache = m_replace_keeps_cache)
   /\ gen_data_object_reads_all_fields_in_order = m_data_object_reads_all_fields_in_order
   /\ gen_concat_requires_all_lazy = m_concat_requires_all_lazy
+  /\ gen_concat_fallback_materialises_lazy_only = m_concat_fallback_materialises_lazy_only
   /\ gen_write_columns_in_field_order = m_write_columns_in_field_order
   (* and the model follows the rules: field access, indexing, concatenate keys *)
   /\ (forall F f l,
@@ -246,10 +247,10 @@ Theorem C05_source_tie :
 Proof.
   split.
   { intros a b c d e f.
-    exact (conj (b_getattr_source a b c) (conj (b_concat_column_source a b) (conj (b_concat_path a) (conj (b_concat_set_key a)
+    exact (conj (b_getattr_source a b c) (conj (b_concat_column_source a b) (conj (b_concat_path a b) (conj (b_concat_set_key a)
           (conj (b_concat_cache_key a b) (conj (b_get_buffer_path a b c d e f) (conj (b_write_column a) (b_should_be_lazy a b c d e f)))))))). }
   split; [exact b_get_field_parses_buffer|]. split; [exact b_getitem|]. split; [exact b_itemgetter_getitem|].
-  split; [exact b_replace|]. split; [exact b_data_object|]. split; [exact b_concat_requires_all_lazy|].
+  split; [exact b_replace|]. split; [exact b_data_object|]. split; [exact b_concat_requires_all_lazy|]. split; [exact b_concat_fallback|].
   split; [exact b_write_order|]. split; [exact s_l_get|].
   intros F first rest l' H. destruct (s_l_concat F first rest l' H) as [H1 [H2 _]]. split; assumption.
 Qed.
@@ -284,3 +285,201 @@ Example C05_fixed_witnesses :
   /\ m_run l_concat W_bed3 [] (start [W_rec]) [OGet 0 1; OCat 0 [0; 1]; OLen 0]
   = s_run W_bed3 [] [rows_of_file W_bed3 [W_rec]; rows_of_file W_bed3 [W_rec]] [OGet 0 1; OCat 0 [0; 1]; OLen 0].
 Proof. exact concat_fixed_witnesses. Qed.
+
+(* ======== round 6: the code after notes/C05.fix-4.diff (every replaced column is formatted by the lazy writer),
+   fix-5 (np.concatenate accepts materialised operands) and fix-6 (the eager VCF writer writes tables read from a file
+   with header lines).  m_run6 / e_run6 are the CURRENT models (Corr/C05.v checks them on every case); the theorems
+   above about m_run / e_run with C05_concat_mixed_refuted, C05_write_replaced_refuted, C05_eager_write_fails_refuted
+   are kept as history of the code before these repairs. ======== *)
+
+(* join_ok (the modified lazy write joins a row like the eager writer) needs no guard: it always holds *)
+Theorem C05_join_ok : forall F l, join_ok F l = true.
+Proof. exact join_ok_true. Qed.
+Print Assumptions C05_join_ok.
+
+(* the lazy write after fix-4 is TOTAL and equals the eager serialisation on canonically spelled records: pass-through
+   or re-joined, whatever columns are replaced (no f_nowrite) *)
+Theorem C05_write_r6 :
+  forall F hdr l, InvL F l -> canonL F l -> l_write6 F hdr l = s_write F hdr (abs F (TLazy l)).
+Proof. exact l_write6_ok. Qed.
+Print Assumptions C05_write_r6.
+
+(* refinement lazy state machine -> Spec for every format descriptor, register file (lazy and materialised tables in any
+   mixture) and program, under m_guard6: concatenate operands whose parsers do not raise (any mixture of lazy and
+   materialised), OGet of an existing field, replacement columns of table length, no t[i] on a lazily read ragged table,
+   a materialised table not written by a writer that needs the header context, OWriteRead of an unmodified table *)
+Theorem C05_refines_r6 :
+  forall F hdr prog regs,
+    Forall (Inv F) regs ->
+    m_guard6_run l_concat F hdr regs prog = true ->
+    map erase (m_run6 l_concat F hdr regs prog) = map erase (s_run F hdr (map (abs F) regs) prog)
+    /\ (Forall (Canon F) regs -> m_run6 l_concat F hdr regs prog = s_run F hdr (map (abs F) regs) prog).
+Proof. exact refines_r6. Qed.
+Print Assumptions C05_refines_r6.
+
+Theorem C05_file_level_r6 :
+  forall F hdr recs prog,
+    Forall (fun r => length (r_fields r) = nfields F) recs ->
+    m_guard6_run l_concat F hdr (start recs) prog = true ->
+    let lazy_obs := m_run6 l_concat F hdr (start recs) prog in
+    let eager_obs := s_run F hdr [rows_of_file F recs; rows_of_file F recs] prog in
+    map erase lazy_obs = map erase eager_obs
+    /\ (Forall (fun r => rec_canon F r = true) recs -> lazy_obs = eager_obs).
+Proof. exact file_level_r6. Qed.
+Print Assumptions C05_file_level_r6.
+
+(* the eager implementation after fix-6 is the Spec whenever every written table still has its header context (it is
+   the table read() returned) or there is no header to lose — a per-step guard, no longer "the file has no header" *)
+Theorem C05_eager_is_spec_r6 :
+  forall F hdr prog regs,
+    e_guard6_run F hdr regs prog = true -> e_run6 F hdr regs prog = s_run F hdr (map fst regs) prog.
+Proof. exact eager6_is_spec. Qed.
+Print Assumptions C05_eager_is_spec_r6.
+Theorem C05_eager_guard_r6_weaker :
+  forall F hdr prog regs, eager_guard F hdr = true -> e_guard6_run F hdr regs prog = true.
+Proof. exact e_guard6_of_eager_guard. Qed.
+Print Assumptions C05_eager_guard_r6_weaker.
+
+(* THE PROPERTY on the two models of the code as it is now: a lazily read table and the eagerly parsed table of the same
+   well-formed file (with or without header lines) give equal observations under every program — equal values; equal
+   written bytes when the file is canonically spelled — under the guards that exclude exactly the two remaining listed
+   findings (t[i] on a lazily read ragged table: m_guard6; write of a DERIVED eager table of a file with header lines or
+   under a writer with a default header / needing the context: e_guard6) and ill-formed programs (unknown field,
+   replacement column of the wrong length, a parser that raises) *)
+Theorem C05_lazy_is_eager_partial :
+  forall F hdr recs prog ctx,
+    Forall (fun r => length (r_fields r) = nfields F) recs ->
+    m_guard6_run l_concat F hdr (start recs) prog = true ->
+    e_guard6_run F hdr [(rows_of_file F recs, ctx); (rows_of_file F recs, ctx)] prog = true ->
+    let lazy_obs := m_run6 l_concat F hdr (start recs) prog in
+    let eager_obs := e_run6 F hdr [(rows_of_file F recs, ctx); (rows_of_file F recs, ctx)] prog in
+    map erase lazy_obs = map erase eager_obs
+    /\ (Forall (fun r => rec_canon F r = true) recs -> lazy_obs = eager_obs).
+Proof. exact lazy_is_eager_r6. Qed.
+Print Assumptions C05_lazy_is_eager_partial.
+
+(* what the two remaining guards exclude (each a listed finding) *)
+Theorem C05_eager_header_lost_r6_refuted :     (* C05-header-lost-on-derived-eager-table *)
+  exists F hdr recs prog ctx, wf F recs /\
+    e_guard6_run F hdr [(rows_of_file F recs, ctx); (rows_of_file F recs, ctx)] prog = false /\
+    e_run6 F hdr [(rows_of_file F recs, ctx); (rows_of_file F recs, ctx)] prog
+    <> s_run F hdr [rows_of_file F recs; rows_of_file F recs] prog.
+Proof. exact r6_eager_header_lost_refuted. Qed.
+Print Assumptions C05_eager_header_lost_r6_refuted.
+Theorem C05_at_ragged_r6_refuted :             (* C05-int-index-ragged-column *)
+  exists F hdr recs prog, wf F recs /\ m_guard6_run l_concat F hdr (start recs) prog = false /\
+    map erase (m_run6 l_concat F hdr (start recs) prog)
+    <> map erase (s_run F hdr [rows_of_file F recs; rows_of_file F recs] prog).
+Proof. exact r6_at_ragged_refuted. Qed.
+Print Assumptions C05_at_ragged_r6_refuted.
+
+(* non-vacuity.  (1) the three programs of the repaired findings (mixed concatenate, replaced FASTQ quality written,
+   eager VCF write with a header) now agree with the Spec, on descriptors that still carry f_nowrite / f_eager_write_fails *)
+Example C05_r6_fixed_witnesses :
+  m_run6 l_concat W_fastq [] (start [W_fq]) [OCat 0 [0; 1]; OCat 0 [0; 1]; OTolist 0; OWrite 0]
+  = s_run W_fastq [] [rows_of_file W_fastq [W_fq]; rows_of_file W_fastq [W_fq]] [OCat 0 [0; 1]; OCat 0 [0; 1]; OTolist 0; OWrite 0]
+  /\ m_run6 l_concat W_fastq [] (start [W_fq]) [ORep 0 2 [VS [35%Z]]; OWrite 0]
+     = s_run W_fastq [] [rows_of_file W_fastq [W_fq]; rows_of_file W_fastq [W_fq]] [ORep 0 2 [VS [35%Z]]; OWrite 0]
+  /\ e_run6 W_vcf [35; 10]%Z [(rows_of_file W_vcf [W_vcfrec], true); (rows_of_file W_vcf [W_vcfrec], true)] [OWrite 0]
+     = s_run W_vcf [35; 10]%Z [rows_of_file W_vcf [W_vcfrec]; rows_of_file W_vcf [W_vcfrec]] [OWrite 0].
+Proof. exact r6_fixed_witnesses. Qed.
+(* (2) both guards of C05_lazy_is_eager_partial hold for an 8-step program on a file WITH a header line under a writer with
+   a default header (where eager_guard is false), the written bytes are header ++ records *)
+Example C05_r6_nonvacuous_header :
+  wf W_vcf R6_vcf_recs
+  /\ m_guard6_run l_concat W_vcf [35; 10]%Z (start R6_vcf_recs) R6_vcf_prog = true
+  /\ e_guard6_run W_vcf [35; 10]%Z [(rows_of_file W_vcf R6_vcf_recs, true); (rows_of_file W_vcf R6_vcf_recs, true)] R6_vcf_prog = true
+  /\ eager_guard W_vcf [35; 10]%Z = false
+  /\ nth 7 (m_run6 l_concat W_vcf [35; 10]%Z (start R6_vcf_recs) R6_vcf_prog) XErr = XBytes [35; 10; 99; 9; 53; 10; 100; 9; 55; 10]%Z
+  /\ nth 4 (m_run6 l_concat W_vcf [35; 10]%Z (start R6_vcf_recs) R6_vcf_prog) XErr = XCol [VI 1; VI 2; VI 3; VI 4].
+Proof. exact r6_nonvacuous_header. Qed.
+(* (3) ... and for a 7-step program mixing lazy and materialised concatenate operands and writing a replaced quality
+   column, which the pre-round-6 guard rejects *)
+Example C05_r6_nonvacuous_mixed :
+  wf W_fastq [W_fq]
+  /\ m_guard6_run l_concat W_fastq [] (start [W_fq]) R6_fq_prog = true
+  /\ m_guard_fixed_run l_concat W_fastq [] (start [W_fq]) R6_fq_prog = false
+  /\ e_guard6_run W_fastq [] [(rows_of_file W_fastq [W_fq], true); (rows_of_file W_fastq [W_fq], true)] R6_fq_prog = true
+  /\ nth 2 (m_run6 l_concat W_fastq [] (start [W_fq]) R6_fq_prog) XErr = XLen 3
+  /\ nth 4 (m_run6 l_concat W_fastq [] (start [W_fq]) R6_fq_prog) XErr = XBytes [64; 114; 10; 65; 10; 43; 10; 35; 10]%Z.
+Proof. exact r6_nonvacuous_mixed. Qed.
+
+(* ======== round 6, part 2: the program language extended by sort_by (xop = XB <one of the ten operations> | XSortBy r f).
+   m_xstep models BNPDataClass.sort_by as the lazy class inherits it: the key is read through __getattr__ (parsed AND cached),
+   np.argsort(key, kind='stable') — integers numerically, texts bytewise —, then __getitem__ with that integer list on all
+   three stores.  Corr/C05.v runs every case in this language. ======== *)
+
+(* argsort yields positions of the column, one per row, ordered by key (a stable insertion sort: ties keep their order) *)
+Theorem C05_argsort_positions :
+  forall col, length (argsort col) = length col /\ Forall (fun j => j < length col) (argsort col).
+Proof. intros col. split; [apply argsort_length|apply argsort_bound]. Qed.
+Print Assumptions C05_argsort_positions.
+Theorem C05_argsort_permutation :
+  forall col, Permutation (argsort col) (seq 0 (length col)).
+Proof. exact argsort_perm. Qed.
+Print Assumptions C05_argsort_permutation.
+Theorem C05_argsort_ordered :
+  forall col, chain (fold_right ins_key [] (combine col (seq 0 (length col)))).
+Proof. intros col. apply isort_chain. Qed.
+Print Assumptions C05_argsort_ordered.
+
+(* refinement for the extended language, any register file, any program *)
+Theorem C05_refines_x :
+  forall F hdr prog regs,
+    Forall (Inv F) regs ->
+    m_xguard_run l_concat F hdr regs prog = true ->
+    map erase (m_xrun l_concat F hdr regs prog) = map erase (s_xrun F hdr (map (abs F) regs) prog)
+    /\ (Forall (Canon F) regs -> m_xrun l_concat F hdr regs prog = s_xrun F hdr (map (abs F) regs) prog).
+Proof. exact refines_x. Qed.
+Print Assumptions C05_refines_x.
+
+Theorem C05_eager_is_spec_x :
+  forall F hdr prog regs,
+    e_xguard_run F hdr regs prog = true -> e_xrun F hdr regs prog = s_xrun F hdr (map fst regs) prog.
+Proof. exact eagerx_is_spec. Qed.
+Print Assumptions C05_eager_is_spec_x.
+
+(* THE PROPERTY for programs that may also sort: lazy run = eager run *)
+Theorem C05_lazy_is_eager_x_partial :
+  forall F hdr recs prog ctx,
+    Forall (fun r => length (r_fields r) = nfields F) recs ->
+    m_xguard_run l_concat F hdr (start recs) prog = true ->
+    e_xguard_run F hdr [(rows_of_file F recs, ctx); (rows_of_file F recs, ctx)] prog = true ->
+    let lazy_obs := m_xrun l_concat F hdr (start recs) prog in
+    let eager_obs := e_xrun F hdr [(rows_of_file F recs, ctx); (rows_of_file F recs, ctx)] prog in
+    map erase lazy_obs = map erase eager_obs
+    /\ (Forall (fun r => rec_canon F r = true) recs -> lazy_obs = eager_obs).
+Proof. exact lazy_is_eager_x. Qed.
+Print Assumptions C05_lazy_is_eager_x_partial.
+
+(* tie to the source for sort_by: the rules regenerated from bnpdataclass.py (key through getattr, text keys as bytes, STABLE
+   argsort, self[...]; the lazy class does not override sort_by) are the model's, and m_xstep follows them *)
+Theorem C05_source_tie_sort_by :
+  (gen_sort_by_key_through_getattr = m_sort_by_key_through_getattr /\ gen_sort_by_text_key_bytewise = m_sort_by_text_key_bytewise
+   /\ gen_sort_by_stable = m_sort_by_stable /\ gen_sort_by_indexes_self = m_sort_by_indexes_self)
+  /\ (forall cc F hdr l f,
+        m_sort_by_key_through_getattr && m_sort_by_stable && m_sort_by_indexes_self = true ->
+        m_xstep cc F hdr [TLazy l] (XSortBy 0 f) =
+        match l_get F f l with
+        | Some (c, l') => ([TLazy (l_index (argsort c) l')], XOk)
+        | None => ([TLazy l], XErr)
+        end).
+Proof. exact (conj b_sort_by s_sort_by). Qed.
+Print Assumptions C05_source_tie_sort_by.
+
+(* the extension is conservative: programs without sort_by run as before *)
+Theorem C05_x_conservative :
+  forall cc F hdr prog regs, m_xrun cc F hdr regs (map XB prog) = m_run6 cc F hdr regs prog.
+Proof. intros. apply m_xrun_base. Qed.
+Print Assumptions C05_x_conservative.
+
+(* non-vacuity: a 9-step program with three sorts (integer key with ties, text key, after a replace), a header line, the
+   read() table written: both guards hold; the observed columns are the stably sorted ones *)
+Example C05_x_nonvacuous :
+  wf W_bed3 X_recs
+  /\ m_xguard_run l_concat W_bed3 [35; 10]%Z (start X_recs) X_prog = true
+  /\ e_xguard_run W_bed3 [35; 10]%Z [(rows_of_file W_bed3 X_recs, true); (rows_of_file W_bed3 X_recs, true)] X_prog = true
+  /\ nth 1 (m_xrun l_concat W_bed3 [35; 10]%Z (start X_recs) X_prog) XErr = XCol [VI 7; VI 2; VI 4; VI 1]
+  /\ nth 4 (m_xrun l_concat W_bed3 [35; 10]%Z (start X_recs) X_prog) XErr = XCol [VI 6; VI 8; VI 5; VI 7]
+  /\ nth 8 (m_xrun l_concat W_bed3 [35; 10]%Z (start X_recs) X_prog) XErr = XCol [VI 1; VI 2; VI 4; VI 7].
+Proof. exact x_nonvacuous. Qed.
